@@ -188,10 +188,18 @@ RespVals(kind, g) ==
 (* ------------------------------- the state machine --------------------- *)
 VARIABLES what, grp, ph, v
 vars == <<what, grp, ph, v>>
+(* Dir = "badrc": responses whose resultCode cannot be reported (2^32, 2^32 + 10, the same with a leading zero octet, 2^64,
+   2^64 - 2^32, and no content at all) *)
+BadRcOctets == {<<>>, <<1, 0, 0, 0, 0>>, <<1, 0, 0, 0, 10>>, <<0, 1, 0, 0, 0, 0>>, <<1, 0, 0, 0, 0, 0, 0, 0, 0>>,
+                <<255, 255, 255, 255, 0, 0, 0, 0>>}
 Init == /\ ph = 0 /\ v = <<>>
-        /\ IF Dir = "req" THEN what \in Ops /\ grp \in ReqGroups ELSE what \in RespKinds /\ grp \in RespGroups
+        /\ IF Dir = "req" THEN what \in Ops /\ grp \in ReqGroups
+           ELSE IF Dir = "badrc" THEN what \in RespKinds /\ grp = "badrc"
+           ELSE what \in RespKinds /\ grp \in RespGroups
 Next == /\ ph = 0 /\ ph' = 1 /\ UNCHANGED <<what, grp>>
-        /\ v' \in IF Dir = "req" THEN ReqVals(what, grp) ELSE RespVals(what, grp)
+        /\ v' \in IF Dir = "req" THEN ReqVals(what, grp)
+                  ELSE IF Dir = "badrc" THEN {[kind |-> what, id |-> 1, rcoct |-> o] : o \in BadRcOctets}
+                  ELSE RespVals(what, grp)
 Spec == Init /\ [][Next]_vars
 
 Encs(x) == AltEncs(Response(x.r, x.emptyctl, x.expl), Forms)
@@ -216,6 +224,10 @@ RespRoundTrip ==
      /\ Encs(v) # {}
      /\ Enc(Response(v.r, v.emptyctl, v.expl)) \in Encs(v)
      /\ \A e \in Encs(v) : LET d == DecodeResponse(e) IN d = NormResp(v.r) /\ TextOk(d)
+(* an unreportable result code is refused by the reader, whatever the response kind *)
+BadRcRefused ==
+  (ph = 1 /\ Dir = "badrc") => /\ RcUnreportable(v.rcoct)
+                               /\ ~DecodeResponse(Enc(RawRcResponse(v.kind, v.id, v.rcoct))).ok
 (* the helper table (result.rs documentation; RFC 4511 appendix A.1) *)
 ASSUME HelperTable ==
   /\ \A rc \in Rcs : Success(rc) = (rc = 0) /\ NonError(rc) = (rc = 0 \/ rc = 10) /\ CmpNonError(rc) = (rc \in {5, 6, 10})
@@ -251,7 +263,10 @@ ASSUME Anchors ==
 PreRefs == << <<108, 100, 97, 112, 58, 47, 47, 120, 47>>, <<108, 100, 97, 112, 58, 47, 47, 121, 47, 111, 61, 122>> >>   \* "ldap://x/", "ldap://y/o=z"
 Emit ==
   ~EmitVectors \/ ph = 0 \/
-  IF Dir = "req"
+  IF Dir = "badrc"
+  THEN PrintT(<<"VEC", ToJson([k |-> "respfail", kind |-> v.kind, op |-> KindName(v.kind), id |-> v.id, rcoct |-> v.rcoct,
+                               bytes |-> Enc(RawRcResponse(v.kind, v.id, v.rcoct))])>>)
+  ELSE IF Dir = "req"
   THEN PrintT(<<"VEC", ToJson([k |-> "req", op |-> v.op, a |-> v.a, id |-> v.id, some |-> v.some, ctrls |-> v.ctrls,
                                encs |-> RequestEncodings(v.op, v.a, v.id, v.some, v.ctrls)])>>)
   ELSE PrintT(<<"VEC", ToJson([k |-> "resp", kind |-> v.r.kind, op |-> KindName(v.r.kind), id |-> v.r.id, grp |-> grp,
